@@ -16051,6 +16051,8 @@ R_<TG_, TA_>::load(ReadStream& stream) noexcept {
 
 	_core.registry.clearRequests();
 	_core.registry.compoResumable.clear();
+
+	ReadStream resumables{stream};
 	_apex.deepLoadRequested(_core.registry, stream);
 
 	_core.requests.clear();
@@ -16078,6 +16080,10 @@ R_<TG_, TA_>::load(ReadStream& stream) noexcept {
 	PlanControl control{_core, emptyTransitions};
 
 	_apex.deepChangeToRequested(control);
+
+	// exits performed above record resumable sub-states, restore the loaded ones
+	_apex.deepLoadRequested(_core.registry, resumables);
+	_core.registry.clearRequests();
 
 	HFSM2_IF_STRUCTURE_REPORT(udpateActivity());
 }
